@@ -56,7 +56,7 @@ func (c *c04) Cases(tier string, seed int64) []core.Case {
 			}
 		}
 	}
-	n := map[string]int{"quick": 300, "thorough": 4000}[tier]
+	n := map[string]int{"quick": 300, "thorough": 20000}[tier]
 	for i := 0; i < n; i++ {
 		cs = append(cs, core.MkCase(fmt.Sprintf("rnd-%d", i), p1Params{r.Int63(), "random"}))
 	}
